@@ -97,7 +97,8 @@ def build_stack(rng, env, depth, allow_obs=True, kinds=None):
             elif k == "TransformReward":
                 env2, d = W.TransformReward(env, _reward_affine), {"w": "affineReward", "a": 0.5, "b": 1.0}
             elif k == "ClipReward":
-                lo, hi = float(rng.choice([-1.0, -0.25])), float(rng.choice([1.0, 0.5]))
+                # incl. bounds that are exactly 0 (a one-sided-looking clip: "no negative rewards" / "no bonuses")
+                lo, hi = [(-1.0, 1.0), (-0.25, 0.5), (0.0, 1.0), (-1.0, 0.0), (0.0, 0.5), (-0.25, 0.0)][int(rng.integers(6))]
                 env2, d = W.ClipReward(env, lo, hi), {"w": "clipReward", "lo": lo, "hi": hi}
             else:
                 continue
